@@ -6,6 +6,18 @@ ALL = ["C%02d" % i for i in range(1, 20)]
 
 # id -> (technique, level text, level note, design ref)
 CHECKS = {
+ "C03": ("exhaustive budget sweep (every N in a range + the values around each program's exact need) over a family of looping / callback-heavy programs, instructions counted by the dispatch hook",
+         "38 programs (endless loops and recursion, native->script->native nesting to depth 3 through sort/min/max key functions, map/filter callbacks, host re-entry incl. recursion through the host, a host function swallowing the callback's error) x every budget 1..300 (thorough 2000) and needed-2..needed+3: dispatch count over all nesting levels <= N, insufficient budget => Timeout, sufficient budget => identical to the unbounded run.",
+         "Timeout inside a native's callback may surface wrapped as TaskFailure(native: Timeout).", "DESIGN.md §4 C03"),
+ "C05": ("limit sweep (which allocation fails is decided by the limit) x program family, shadow ledger on every allocator event via hooks, independent reachability traversal after collections, peak-based OOM discipline",
+         "22 programs with rooted live data x ~160 limits (thorough ~560): at every alloc/dealloc/failed-alloc event the counter equals the sum of outstanding charges and stays under the limit, failed allocations charge nothing, releases use the allocation's layout, clear returns to zero, drop leaves nothing outstanding; object list vs. independently computed reachable set after collections; every limit >= the measured peak of (live after collection + request) must not give OutOfMemory; churn with tiny live data completes under every large limit.",
+         "Memory of key vectors / upvalue vectors is taken from the global allocator and is outside 'accounted'; programs bind fresh objects to a global before using them as operands of allocating cards (C02's open findings).", "DESIGN.md §4 C05"),
+ "C11": ("bounded-exhaustive round trips: module families x {json,yaml}, compiled programs and containers with every entry count 0..64 (thorough 400) x {json,cbor,bincode}, owned values",
+         "Source modules read back compile to byte-identical program images; compiled programs read back are field-wise equal and run identically (incl. error traces); HandleTable / CaoHashMap with every count survive each format and remain usable under every follow-up history of depth 2; 165 owned values survive OwnedValue + 3 formats + a second VM with order preserved.",
+         "Non-finite reals excluded for JSON/YAML sources.", "DESIGN.md §4 C11"),
+ "C18": ("finite product of typed host functions x supplied value kinds x call paths x call depths on the real Vm + bounded-exhaustive re-entry family against the reference interpreter with host-side stack-height checks",
+         "4179 typed-parameter cases (8 rotations of 8 parameter types over arities 0..4, 6 supplied kinds, CallNative / native value / host run_function, depth 0..2) against the conversion table; reserved names; 972 re-entry programs (5 callee kinds x 6 callee bodies x argument counts x call sites x result uses) with value-stack height and call depth compared inside the host function around every successful run_function.",
+         "Coercing conversions may yield the coercion or a rejection.", "DESIGN.md §4 C18"),
  "C15": ("bounded-exhaustive error injection at every value-producing card position of base programs, locations compared with the reference interpreter's; constructive resource-error cases",
          "5 base programs (call depth 0-2, nested modules, closures and dynamic calls, loops, table cards and natives) x every value-producing card position x 5 injected failing expressions: trace[0] must be the raising card, trace[1..] the call cards of the active chain with namespaces (plus at most the program entry); the same positions x 4 cards the compiler must reject: CompilationError.loc must be that card; 39 resource-exhaustion cases (call depth, value stack, memory, budget) whose raising card is known by construction.",
          "Errors inside library callbacks / host re-entry excluded (those frames have no call card).", "DESIGN.md §4 C15"),
